@@ -67,6 +67,10 @@ def shape_axes(tier, sides=("left", "full", "right"), nxs=None):
         for side in sides:
             for ny in nyq[side]:
                 out.append(dict(nx=nx, ny=ny, side=side))
+    if tier == "quick" and 4 not in nxs and 3 in nxs:
+        # nx = 4 is the smallest mesh with an interior chordwise panel row (nx = 3 has only a first and a last row): one
+        # such configuration per component stays in the quick tier
+        out.append(dict(nx=4, ny=nyq[sides[0]][0], side=sides[0]))
     return out
 
 
